@@ -324,4 +324,165 @@ theorem tiles_range' (s : Date) (hv : s.Valid) (u : DUnit) (hu : u ≠ .eternity
           · rw [hqe]; exact ⟨rfl, rfl⟩
           · exact ihU q' hq'
 
+/-! ## tilings compose; day tilings are unique; pieces of `offsetsFrom` -/
+
+theorem valid_first (y m : Int) (hy : 1 ≤ y) (hm1 : 1 ≤ m) (hm12 : m ≤ 12) : (Date.mk y m 1).Valid :=
+  ⟨hy, hm1, hm12, by simp only; omega, by have := dim_ge y m; simp only; omega⟩
+
+theorem ord_month_day (c : Date) : ord c = ord ⟨c.y, c.m, 1⟩ + (c.d - 1) := by
+  simp only [ord]; omega
+
+theorem ord_endOfWeek (c : Date) (h : 1 ≤ ord c - weekday0 (ord c)) :
+    ord (endOfWeek c) = ord c - weekday0 (ord c) + 6 := ord_ofOrd _ (by omega)
+
+theorem tiles_append : ∀ (as bs : List Period) (lo mid hi : Int),
+    Tiles as lo mid → Tiles bs (mid + 1) hi → Tiles (as ++ bs) lo hi := by
+  intro as
+  induction as with
+  | nil => intro bs lo mid hi ha hb; simp only [Tiles] at ha; rw [ha]; exact hb
+  | cons a as ih =>
+    intro bs lo mid hi ha hb
+    obtain ⟨h1, h2, h3⟩ := ha
+    exact ⟨h1, h2, ih bs _ mid hi h3 hb⟩
+
+theorem tiles_le : ∀ (qs : List Period) (lo hi : Int), Tiles qs lo hi → lo ≤ hi + 1 := by
+  intro qs
+  induction qs with
+  | nil => intro lo hi h; simp only [Tiles] at h; omega
+  | cons q qs ih =>
+    intro lo hi h
+    obtain ⟨h1, h2, h3⟩ := h
+    have := ih _ _ h3
+    omega
+
+/-- tilings compose: replacing every piece of a tiling by a tiling of that piece tiles the whole -/
+theorem tiles_flatten : ∀ (qs : List Period) (dss : List (List Period)) (lo hi : Int),
+    Tiles qs lo hi → Piecewise (fun q ds => Tiles ds q.lo q.hi) qs dss → Tiles dss.flatten lo hi := by
+  intro qs
+  induction qs with
+  | nil =>
+    intro dss lo hi ht hf
+    cases dss with
+    | nil => simpa using ht
+    | cons _ _ => cases hf
+  | cons q qs ih =>
+    intro dss lo hi ht hf
+    cases dss with
+    | nil => cases hf
+    | cons ds dss =>
+      obtain ⟨hq, hrest⟩ := hf
+      obtain ⟨h1, _, h3⟩ := ht
+      simp only [List.flatten_cons]
+      rw [← h1]
+      exact tiles_append _ _ _ _ _ hq (ih _ _ _ h3 hrest)
+
+/-- a one-day piece named by its ordinal -/
+def IsDayPiece (q : Period) : Prop := q.unit = .day ∧ q.size = 1 ∧ q.start = ofOrd q.lo
+
+theorem tiles_days_unique : ∀ (as bs : List Period) (lo hi : Int), Tiles as lo hi → Tiles bs lo hi →
+    (∀ q ∈ as, IsDayPiece q) → (∀ q ∈ bs, IsDayPiece q) → as = bs := by
+  intro as
+  induction as with
+  | nil =>
+    intro bs lo hi ha hb _ hB
+    cases bs with
+    | nil => rfl
+    | cons b bs =>
+      simp only [Tiles] at ha
+      obtain ⟨h1, h2, h3⟩ := hb
+      obtain ⟨hu, hs, _⟩ := hB b List.mem_cons_self
+      have : b.hi = b.lo := by simp only [Period.hi, Period.lo, hu, hs]; omega
+      have := tiles_le _ _ _ h3
+      omega
+  | cons a as ih =>
+    intro bs lo hi ha hb hA hB
+    obtain ⟨ha1, ha2, ha3⟩ := ha
+    obtain ⟨hau, has, hast⟩ := hA a List.mem_cons_self
+    have hahi : a.hi = a.lo := by simp only [Period.hi, Period.lo, hau, has]; omega
+    cases bs with
+    | nil => simp only [Tiles] at hb; have := tiles_le _ _ _ ha3; omega
+    | cons b bs =>
+      obtain ⟨hb1, hb2, hb3⟩ := hb
+      obtain ⟨hbu, hbs, hbst⟩ := hB b List.mem_cons_self
+      have hbhi : b.hi = b.lo := by simp only [Period.hi, Period.lo, hbu, hbs]; omega
+      have hab : a = b := by
+        obtain ⟨au, ast, an⟩ := a
+        obtain ⟨bu, bst, bn⟩ := b
+        simp only at hau has hast hbu hbs hbst
+        subst hau has hbu hbs
+        have : ast = bst := by rw [hast, hbst, ha1, hb1]
+        rw [this]
+      subst hab
+      congr 1
+      exact ih bs _ hi ha3 hb3 (fun q hq => hA q (List.mem_cons_of_mem _ hq)) (fun q hq => hB q (List.mem_cons_of_mem _ hq))
+
+theorem mapM_mem_ok {α β : Type} (f : α → Except String β) : ∀ (xs : List α) (ys : List β),
+    xs.mapM f = .ok ys → ∀ y ∈ ys, ∃ x ∈ xs, f x = .ok y := by
+  intro xs
+  induction xs with
+  | nil =>
+    intro ys h y hy
+    simp only [List.mapM_nil, pure, Except.pure] at h
+    injection h with h; subst h; cases hy
+  | cons x xs ih =>
+    intro ys h y hy
+    simp only [List.mapM_cons] at h
+    cases hx : f x with
+    | error e => rw [hx] at h; cases h
+    | ok y0 =>
+      rw [hx] at h
+      simp only [bind, Except.bind] at h
+      cases hr : xs.mapM f with
+      | error e => rw [hr] at h; cases h
+      | ok rest =>
+        rw [hr] at h
+        simp only [pure, Except.pure] at h
+        injection h with h; subst h
+        rcases List.mem_cons.1 hy with rfl | hy
+        · exact ⟨x, List.mem_cons_self, hx⟩
+        · obtain ⟨x', hx', hfx⟩ := ih rest hr y hy
+          exact ⟨x', List.mem_cons_of_mem _ hx', hfx⟩
+
+/-- every element of `[base.offset(i, unit) for i in range(n)]` is the base moved forward -/
+theorem offsetsFrom_pieces (b : Period) (u : DUnit) (n : Int) (qs : List Period)
+    (h : offsetsFrom b u n = .ok qs) :
+    ∀ q ∈ qs, b.start.Valid ∧ ∃ i : Nat, q = ⟨b.unit, shiftDate b.start i u, b.size⟩ := by
+  intro q hq
+  unfold offsetsFrom at h
+  obtain ⟨i, _, hi⟩ := mapM_mem_ok _ _ _ h q hq
+  obtain ⟨hv, he⟩ := offset_n_ok _ _ _ _ hi
+  exact ⟨hv, i, by simpa using he⟩
+
+theorem Piecewise.imp {R R' : Period → List Period → Prop} : ∀ (qs : List Period) (dss : List (List Period)),
+    (∀ q ∈ qs, ∀ ds, R q ds → R' q ds) → Piecewise R qs dss → Piecewise R' qs dss := by
+  intro qs
+  induction qs with
+  | nil => intro dss _ h; cases dss with
+    | nil => trivial
+    | cons _ _ => cases h
+  | cons q qs ih =>
+    intro dss himp h
+    cases dss with
+    | nil => cases h
+    | cons ds dss =>
+      exact ⟨himp q List.mem_cons_self ds h.1, ih dss (fun q' hq' => himp q' (List.mem_cons_of_mem _ hq')) h.2⟩
+
+theorem Piecewise.flatten_all {R : Period → List Period → Prop} {P : Period → Prop} :
+    ∀ (qs : List Period) (dss : List (List Period)),
+    (∀ q ∈ qs, ∀ ds, R q ds → ∀ x ∈ ds, P x) → Piecewise R qs dss → ∀ x ∈ dss.flatten, P x := by
+  intro qs
+  induction qs with
+  | nil => intro dss _ h x hx; cases dss with
+    | nil => cases hx
+    | cons _ _ => cases h
+  | cons q qs ih =>
+    intro dss himp h x hx
+    cases dss with
+    | nil => cases h
+    | cons ds dss =>
+      simp only [List.flatten_cons, List.mem_append] at hx
+      rcases hx with hx | hx
+      · exact himp q List.mem_cons_self ds h.1 x hx
+      · exact ih dss (fun q' hq' => himp q' (List.mem_cons_of_mem _ hq')) h.2 x hx
+
 end OFCore
